@@ -1,60 +1,247 @@
 (* Proofs about Model/Codegen.v (C11); the composition with routing uses Proofs/Router.v. *)
 From Verif Require Import Lib.Bytes Lib.Obs.
 From Verif Require Import Gen.StatusTables Model.Router Proofs.Router Model.Codegen.
+From Coq Require Import String.
 Open Scope N_scope.
+Local Notation length := Datatypes.length.
 
-Lemma format_method_path_eq o s m :
-  format_method_path s m (o_emit_package o) =
-  method_path (sv_service_name (gen_server o s)) (m_ident m).
-Proof. reflexivity. Qed.
-
-(* client literal = server match literal = "/" ++ SERVICE_NAME ++ "/" ++ method, per method *)
-Lemma paths_agree_method o s m :
-  c_path (gen_client_fn o s m) = a_literal (gen_arm o s m) /\
-  a_literal (gen_arm o s m) = method_path (sv_service_name (gen_server o s)) (m_ident m).
-Proof. split; reflexivity. Qed.
-
-(* .. and as whole lists, in declaration order *)
-Theorem paths_agree o s :
-  map c_path (gen_client o s) = map a_literal (sv_arms (gen_server o s)) /\
-  map a_literal (sv_arms (gen_server o s)) =
-  map (fun m => method_path (sv_service_name (gen_server o s)) (m_ident m)) (s_methods s).
+(* ---------------------------------------------------------------------------------------- *)
+(* option / mapM *)
+Lemma bind_some {A B} (x : option A) (f : A -> option B) y :
+  bind x f = Some y -> exists a, x = Some a /\ f a = Some y.
+Proof. destruct x; cbn; [eauto | discriminate]. Qed.
+Lemma bind_none {A B} (x : option A) (f : A -> option B) :
+  bind x f = None <-> x = None \/ exists a, x = Some a /\ f a = None.
 Proof.
-  unfold gen_client, gen_server. cbn [sv_arms sv_service_name]. rewrite !map_map. split; reflexivity.
+  destruct x as [a|]; cbn.
+  - split.
+    + intros H. right. eauto.
+    + intros [H | (a' & E & H)]; [discriminate | congruence].
+  - split; [now left | reflexivity].
 Qed.
 
-Lemma shape_agree_method m : client_shape m = server_shape m.
-Proof. unfold client_shape, server_shape. destruct (m_client_streaming m), (m_server_streaming m); reflexivity. Qed.
+Ltac inv_bind H :=
+  repeat (let a := fresh "v" in let E := fresh "E" in
+          apply bind_some in H as (a & E & H); cbv beta in H).
 
-(* same streaming shape and same message types on both sides, method by method *)
-Theorem shapes_agree o s :
-  map c_shape (gen_client o s) = map a_shape (sv_arms (gen_server o s)) /\
-  map c_input (gen_client o s) = map a_input (sv_arms (gen_server o s)) /\
-  map c_output (gen_client o s) = map a_output (sv_arms (gen_server o s)) /\
-  map c_fn (gen_client o s) = map a_fn (sv_arms (gen_server o s)).
+Lemma mapM_Forall2 {A B} (f : A -> option B) l r :
+  mapM f l = Some r <-> Forall2 (fun x y => f x = Some y) l r.
 Proof.
-  unfold gen_client, gen_server. cbn [sv_arms]. rewrite !map_map.
-  split; [|repeat split; reflexivity].
-  apply map_ext. intros m. cbn [gen_client_fn gen_arm c_shape a_shape]. apply shape_agree_method.
+  revert r; induction l as [|x l IH]; intros r; cbn [mapM].
+  - split; intros H; [injection H as <-; constructor | inversion H; reflexivity].
+  - split; intros H.
+    + inv_bind H. injection H as <-. constructor; [assumption | now apply IH].
+    + inversion H as [|? y ? r' Hy Hr]; subst. rewrite Hy. cbn [bind].
+      apply IH in Hr. rewrite Hr. reflexivity.
+Qed.
+Lemma mapM_none {A B} (f : A -> option B) l :
+  mapM f l = None <-> exists x, In x l /\ f x = None.
+Proof.
+  induction l as [|x l IH]; cbn [mapM].
+  - split; [discriminate | intros (x & H & _); destruct H].
+  - destruct (f x) as [y|] eqn:Ey; cbn [bind].
+    + destruct (mapM f l) as [ys|] eqn:Em; cbn [bind].
+      * split; [discriminate|]. intros (z & [<-|Hin] & Hz); [congruence|].
+        assert (X : Some ys = None) by (apply IH; eauto). discriminate.
+      * split; [|reflexivity]. intros _. destruct (proj1 IH eq_refl) as (z & Hin & Hz).
+        exists z. split; [now right | exact Hz].
+    + split; [|reflexivity]. intros _. exists x. split; [now left | exact Ey].
+Qed.
+Lemma Forall2_nth {A B} (P : A -> B -> Prop) l r :
+  Forall2 P l r -> length l = length r /\
+  forall i x y, nth_error l i = Some x -> nth_error r i = Some y -> P x y.
+Proof.
+  induction 1 as [|x y l r Hxy H IH]; split; try reflexivity.
+  - intros [|i]; discriminate.
+  - cbn [length]. now rewrite (proj1 IH).
+  - intros [|i] a b; cbn [nth_error]; intros Ha Hb.
+    + congruence.
+    + now apply (proj2 IH i).
+Qed.
+Lemma Forall2_impl {A B} (P Q : A -> B -> Prop) :
+  (forall x y, P x y -> Q x y) -> forall l r, Forall2 P l r -> Forall2 Q l r.
+Proof. intros H l r. induction 1; constructor; auto. Qed.
+Lemma Forall2_map_eq {A B C} (g : A -> C) (h : B -> C) l r :
+  Forall2 (fun x y => h y = g x) l r -> map h r = map g l.
+Proof. induction 1; cbn [map]; congruence. Qed.
+
+(* ---------------------------------------------------------------------------------------- *)
+(* identifiers *)
+Lemma mk_ident_text id x : mk_ident id = Some x -> x = id.
+Proof.
+  unfold mk_ident. destruct (strip_prefix (str "r#") id).
+  - destruct (validate_ident_raw l); congruence.
+  - destruct (validate_ident id); congruence.
 Qed.
 
-(* the shape is the one the descriptor asks for *)
-Theorem shape_spec m :
-  server_shape m =
-  match m_client_streaming m, m_server_streaming m with
-  | false, false => Unary | false, true => ServerStreaming
-  | true, false => ClientStreaming | true, true => Streaming
+(* ---------------------------------------------------------------------------------------- *)
+(* what each generator emits for one method, in terms of the descriptor *)
+Definition client_fn_spec (s : svc) (emit_package : bool) (proto_path : list N) (cwkt : bool)
+    (m : method) (f : client_fn) : Prop :=
+  c_fn f = m_name m /\
+  c_path f = format_method_path s m emit_package /\
+  c_grpc_method f = (format_service_name s emit_package, m_ident m) /\
+  c_req_streaming f = m_client_streaming m /\
+  c_resp_streaming f = m_server_streaming m /\
+  c_call f = shape_of (m_client_streaming m) (m_server_streaming m) /\
+  m_types m proto_path cwkt = Some (c_input f, c_output f).
+
+Lemma client_method_spec s e pp cw m f :
+  client_generate_method s e pp cw m = Some f -> client_fn_spec s e pp cw m f.
+Proof.
+  unfold client_generate_method, client_fn_spec.
+  destruct (m_client_streaming m), (m_server_streaming m); intros H;
+    [unfold client_generate_streaming in H | unfold client_generate_client_streaming in H
+    | unfold client_generate_server_streaming in H | unfold client_generate_unary in H];
+    inv_bind H; injection H as <-; cbn;
+    match goal with E : mk_ident _ = Some _ |- _ => apply mk_ident_text in E; subst end;
+    match goal with E : m_types _ _ _ = Some ?p |- _ => rewrite E; destruct p end;
+    repeat split; reflexivity.
+Qed.
+
+Definition stream_ident (m : method) : list N := m_ident m ++ str "Stream".
+
+Definition trait_fn_spec (proto_path : list N) (cwkt use_arc_self stubs : bool) (m : method)
+    (t : trait_fn) : Prop :=
+  t_fn t = m_name m /\
+  t_arc_self t = use_arc_self /\
+  t_req_streaming t = m_client_streaming m /\
+  t_default_body t = stubs /\
+  exists i o, m_types m proto_path cwkt = Some (i, o) /\ t_input t = i /\
+    (t_resp t, t_assoc t) =
+    if m_server_streaming m
+    then if stubs then (RBox o, None) else (RAssoc (stream_ident m), Some (stream_ident m, o))
+    else (RPlain o, None).
+
+Lemma trait_method_spec pp cw arc stubs m t :
+  generate_trait_method pp cw arc stubs m = Some t -> trait_fn_spec pp cw arc stubs m t.
+Proof.
+  unfold generate_trait_method, trait_fn_spec, stream_ident. intros H. inv_bind H.
+  apply mk_ident_text in E. subst. rewrite E0. destruct v0 as [i o]. cbn [fst snd] in H.
+  destruct (m_client_streaming m), (m_server_streaming m), stubs;
+    try (inv_bind H; apply mk_ident_text in E; subst);
+    injection H as <-; cbn; repeat split; eauto.
+Qed.
+
+Definition arm_spec (s : svc) (emit_package : bool) (proto_path : list N)
+    (cwkt use_arc_self stubs : bool) (m : method) (a : server_arm) : Prop :=
+  a_literal a = format_method_path s m emit_package /\
+  a_kind a = shape_of (m_client_streaming m) (m_server_streaming m) /\
+  a_grpc_call a = shape_of (m_client_streaming m) (m_server_streaming m) /\
+  a_call_req_streaming a = m_client_streaming m /\
+  a_trait a = s_name s /\
+  a_fn a = m_name m /\
+  a_inner_by_value a = use_arc_self /\
+  exists i o, m_types m proto_path cwkt = Some (i, o) /\ a_input a = i /\ a_output a = o /\
+    a_response_stream a =
+    if m_server_streaming m
+    then Some (if stubs then RBox o else RAssoc (stream_ident m))
+    else None.
+
+Lemma server_method_spec s e pp cw arc stubs m a :
+  server_generate_method s e pp cw arc stubs m = Some a -> arm_spec s e pp cw arc stubs m a.
+Proof.
+  unfold server_generate_method, arm_spec, stream_ident. intros H. inv_bind H.
+  apply mk_ident_text in E, E0. subst.
+  destruct (m_client_streaming m), (m_server_streaming m);
+    [unfold server_generate_streaming in H | unfold server_generate_client_streaming in H
+    | unfold server_generate_server_streaming in H | unfold server_generate_unary in H];
+    inv_bind H; injection H as <-; cbn;
+    match goal with E : m_types _ _ _ = Some ?p |- _ => rewrite E; destruct p as [i o] end;
+    cbn [fst snd] in *;
+    try (destruct stubs; cbn [negb] in *;
+         [match goal with E : Some _ = Some _ |- _ => injection E as <- end
+         |match goal with E : bind _ _ = Some _ |- _ =>
+            inv_bind E; injection E as <-;
+            match goal with E' : mk_ident _ = Some _ |- _ => apply mk_ident_text in E'; subst end
+          end]);
+    repeat split; eauto 8.
+Qed.
+
+(* the whole modules *)
+Lemma client_internal_inv s e pp cw c :
+  client_generate_internal s e pp cw = Some c ->
+  cm_struct c = s_name s ++ str "Client" /\
+  cm_mod c = naive_snake_case (s_name s) ++ str "_client" /\
+  Forall2 (client_fn_spec s e pp cw) (s_methods s) (cm_fns c).
+Proof.
+  unfold client_generate_internal, client_generate_methods. intros H. inv_bind H.
+  apply mk_ident_text in E, E0. subst. injection H as <-. cbn. repeat split.
+  apply mapM_Forall2 in E1. eapply Forall2_impl; [|exact E1].
+  intros m f. apply client_method_spec.
+Qed.
+
+Lemma server_internal_inv s e pp cw arc stubs sv :
+  server_generate_internal s e pp cw arc stubs = Some sv ->
+  sm_struct sv = s_name s ++ str "Server" /\
+  sm_trait sv = s_name s /\
+  sm_mod sv = naive_snake_case (s_name s) ++ str "_server" /\
+  sm_service_name sv = format_service_name s e /\
+  sm_named sv = format_service_name s e /\
+  Forall2 (trait_fn_spec pp cw arc stubs) (s_methods s) (sm_trait_fns sv) /\
+  Forall2 (arm_spec s e pp cw arc stubs) (s_methods s) (sm_arms sv).
+Proof.
+  unfold server_generate_internal, server_generate_methods, generate_trait_methods. intros H.
+  inv_bind H. apply mk_ident_text in E0, E1, E2. subst. injection H as <-. cbn. repeat split.
+  - apply mapM_Forall2 in E3. eapply Forall2_impl; [|exact E3]. intros m t. apply trait_method_spec.
+  - apply mapM_Forall2 in E. eapply Forall2_impl; [|exact E]. intros m a. apply server_method_spec.
+Qed.
+
+(* ---------------------------------------------------------------------------------------- *)
+(* the statement of agreement between one generated client and one generated server *)
+Definition resp_is_stream (r : resp_ty) : bool :=
+  match r with RPlain _ => false | _ => true end.
+(* the message type the handler's response carries *)
+Definition trait_resp_item (t : trait_fn) : option (list N) :=
+  match t_resp t with
+  | RPlain o => Some o
+  | RBox o => Some o
+  | RAssoc x => match t_assoc t with
+                | Some (y, item) => if bytes_eqb x y then Some item else None
+                | None => None
+                end
   end.
+(* the arm's ResponseStream is the handler's stream type *)
+Definition stream_fits (t : trait_fn) (a : server_arm) : Prop :=
+  match t_resp t, a_response_stream a with
+  | RPlain _, None => True
+  | RAssoc x, Some (RAssoc y) => x = y
+  | RBox o, Some (RBox o') => o = o'
+  | _, _ => False
+  end.
+Definition is_some {A} (o : option A) : bool := match o with Some _ => true | None => false end.
+
+Definition method_agreement (name : list N) (trait : list N) (f : client_fn) (t : trait_fn)
+    (a : server_arm) : Prop :=
+  (* the path: client literal = match-arm literal = "/" NAME "/" method; GrpcMethod spells it *)
+  c_path f = a_literal a /\
+  a_literal a = method_path name (snd (c_grpc_method f)) /\
+  fst (c_grpc_method f) = name /\
+  (* the streaming shape, in each place it is written *)
+  c_call f = shape_of (c_req_streaming f) (c_resp_streaming f) /\
+  a_kind a = c_call f /\
+  a_grpc_call a = c_call f /\
+  shape_of (a_call_req_streaming a) (is_some (a_response_stream a)) = c_call f /\
+  shape_of (t_req_streaming t) (resp_is_stream (t_resp t)) = c_call f /\
+  (* the message types, in each place they are written *)
+  c_input f = a_input a /\ t_input t = a_input a /\
+  c_output f = a_output a /\ trait_resp_item t = Some (a_output a) /\
+  (* the handler the arm calls is the trait method with the client method's name *)
+  a_trait a = trait /\ a_fn a = t_fn t /\ c_fn f = t_fn t /\
+  a_inner_by_value a = t_arc_self t /\ stream_fits t a.
+
+Definition agreement (n : nat) (c : client_mod) (sv : server_mod) : Prop :=
+  length (cm_fns c) = n /\ length (sm_trait_fns sv) = n /\ length (sm_arms sv) = n /\
+  sm_named sv = sm_service_name sv /\
+  forall i f t a,
+    nth_error (cm_fns c) i = Some f -> nth_error (sm_trait_fns sv) i = Some t ->
+    nth_error (sm_arms sv) i = Some a ->
+    method_agreement (sm_named sv) (sm_trait sv) f t a.
+
+Lemma format_method_path_eq s m e :
+  format_method_path s m e = method_path (format_service_name s e) (m_ident m).
 Proof. reflexivity. Qed.
 
-(* the GrpcMethod extension carries the two halves of the path *)
-Theorem grpc_method_agrees o s m :
-  let c := gen_client_fn o s m in
-  c_path c = method_path (fst (c_grpc_method c)) (snd (c_grpc_method c)) /\
-  fst (c_grpc_method c) = sv_service_name (gen_server o s).
-Proof. split; reflexivity. Qed.
-
-(* SERVICE_NAME: package "." ident, or just ident *)
 Theorem service_name_spec s emit :
   format_service_name s emit =
   if emit then match s_package s with [] => s_ident s | p => p ++ dot :: s_ident s end
@@ -64,59 +251,254 @@ Proof.
   destruct (s_package s) as [|c p]; reflexivity.
 Qed.
 
-Lemma map_method_path_NoDup name l : NoDup l -> NoDup (map (method_path name) l).
+Lemma service_name_flag s e1 e2 : e1 = e2 \/ s_package s = [] ->
+  format_service_name s e1 = format_service_name s e2.
 Proof.
-  intros H. apply FinFun.Injective_map_NoDup; [|exact H].
-  intros a b E. now apply method_path_inj in E.
+  intros [->|H]; [reflexivity|]. rewrite !service_name_spec, H. now destruct e1, e2.
 Qed.
 
-(* distinct method identifiers get distinct arms: no arm is shadowed by an earlier one *)
-Theorem paths_injective o s : NoDup (map m_ident (s_methods s)) ->
-  NoDup (map a_literal (sv_arms (gen_server o s))).
+Lemma method_agreement_of_specs s ec es pp cw arc stubs m f t a :
+  ec = es \/ s_package s = [] ->
+  client_fn_spec s ec pp cw m f -> trait_fn_spec pp cw arc stubs m t ->
+  arm_spec s es pp cw arc stubs m a ->
+  method_agreement (format_service_name s es) (s_name s) f t a.
 Proof.
-  intros H. destruct (paths_agree o s) as [_ ->].
-  rewrite <- (map_map m_ident (method_path (sv_service_name (gen_server o s)))).
-  now apply map_method_path_NoDup.
+  intros Hflag (Hfn & Hp & Hg & Hcs & Hss & Hcall & Hty)
+         (Htfn & Harc & Htcs & _ & ti & to & Htty & Hti & Htr)
+         (Hl & Hk & Hgc & Hacs & Htr' & Hafn & Hinner & ai & ao & Haty & Hai & Hao & Hrs).
+  rewrite Hty in Htty, Haty. injection Htty as <- <-. injection Haty as <- <-.
+  pose proof (service_name_flag s ec es Hflag) as Hname.
+  unfold method_agreement, trait_resp_item, stream_fits.
+  rewrite Hp, Hl, Hg, Hk, Hgc, Hcall, Hcs, Hss, Hacs, Htcs, Hrs, Hafn, Hinner, Htfn, Hfn, Harc, Hti, Hai, Hao, Htr'.
+  cbn [fst snd]. rewrite !format_method_path_eq, Hname.
+  revert Htr.
+  destruct (m_client_streaming m), (m_server_streaming m), stubs; intros Htr;
+    injection Htr as Hr Ha; rewrite Hr, ?Ha; cbn; rewrite ?bytes_eqb_refl; repeat split; reflexivity.
 Qed.
 
-Lemma dispatch_arms_hit name ms m : In m ms ->
-  dispatch_arms name ms (method_path name m) = Some m.
+(* the main theorem: client::generate_internal and server::generate_internal, called with their
+   own emit_package flags, agree as soon as the flags are equal (or there is no package) *)
+Theorem internal_generators_agree s ec es pp cw arc stubs c sv :
+  client_generate_internal s ec pp cw = Some c ->
+  server_generate_internal s es pp cw arc stubs = Some sv ->
+  ec = es \/ s_package s = [] ->
+  agreement (length (s_methods s)) c sv.
 Proof.
-  induction ms as [|a ms IH]; [intros []|]. cbn [dispatch_arms]. intros Hin.
-  destruct (bytes_eqb (method_path name a) (method_path name m)) eqn:E.
-  - apply bytes_eqb_eq, method_path_inj in E. now subst.
-  - destruct Hin as [->|Hin]; [rewrite bytes_eqb_refl in E; discriminate | now apply IH].
+  intros Hc Hs Hflag.
+  apply client_internal_inv in Hc as (_ & _ & Hfns).
+  apply server_internal_inv in Hs as (_ & Htrait & _ & Hsn & Hnamed & Htfns & Harms).
+  apply Forall2_nth in Hfns as [Lf Hf], Htfns as [Lt Ht], Harms as [La Ha].
+  unfold agreement. rewrite <- Lf, <- Lt, <- La, Hnamed, Hsn, Htrait.
+  split; [reflexivity|]. split; [reflexivity|]. split; [reflexivity|]. split; [reflexivity|].
+  intros i f t a Nf Nt Na.
+  destruct (nth_error (s_methods s) i) as [m|] eqn:Nm.
+  - eapply method_agreement_of_specs; eauto.
+  - apply nth_error_None in Nm. assert (nth_error (cm_fns c) i = None) as X
+      by (apply nth_error_None; lia). congruence.
 Qed.
 
-(* the generated `call`, given the literal a generated client sends, takes that method's arm *)
-Theorem client_path_takes_its_arm o s m : In m (s_methods s) ->
-  dispatch (registered o s) (c_path (gen_client_fn o s m)) = Some (m_ident m).
+(* CodeGenBuilder: one emit_package field feeds both *)
+Theorem codegen_builder_agrees b s pp c sv :
+  generate_client b s pp = Some c -> generate_server b s pp = Some sv ->
+  agreement (length (s_methods s)) c sv.
+Proof. intros Hc Hs. eapply internal_generators_agree; eauto. Qed.
+
+(* the builders of prost.rs and manual.rs construct the two CodeGenBuilders separately *)
+Lemma cgb_chain_server e cw arc stubs :
+  cgb_generate_default_stubs stubs (cgb_use_arc_self arc (cgb_compile_well_known_types cw
+    (cgb_emit_package e cgb_new))) = mkCGB e cw arc stubs.
+Proof. reflexivity. Qed.
+Lemma cgb_chain_client e cw :
+  cgb_compile_well_known_types cw (cgb_emit_package e cgb_new) = mkCGB e cw false false.
+Proof. reflexivity. Qed.
+
+Lemma finalize_some g g' : finalize g = Some g' -> g' = g.
+Proof. unfold finalize. destruct (out_parses g); congruence. Qed.
+
+Lemma bind_wrap {A} (x : option A) v :
+  (a <- x ;; Some (Some a)) = Some v -> exists a, x = Some a /\ v = Some a.
+Proof. destruct x; cbn; intros H; [injection H as <-; eauto | discriminate]. Qed.
+
+Lemma prost_compile_inv b s g :
+  prost_compile b s = Some g ->
+  (forall sv, g_server g = Some sv ->
+     pb_build_server b = true /\
+     server_generate_internal (prost_service_view s) (pb_emit_package b) (pb_proto_path b)
+       (pb_compile_well_known_types b) (pb_use_arc_self b) (pb_generate_default_stubs b) = Some sv) /\
+  (forall c, g_client g = Some c ->
+     pb_build_client b = true /\
+     client_generate_internal (prost_service_view s) (pb_emit_package b) (pb_proto_path b)
+       (pb_compile_well_known_types b) = Some c) /\
+  (pb_build_server b = true -> g_server g <> None) /\
+  (pb_build_client b = true -> g_client g <> None).
 Proof.
-  intros Hin. unfold dispatch, registered. cbn [svc_name svc_methods gen_client_fn c_path].
-  rewrite format_method_path_eq. apply dispatch_arms_hit. now apply in_map.
+  unfold prost_compile, prost_generate. intros H. inv_bind H. apply finalize_some in H. subst g.
+  rename E into G. inv_bind G. injection G as <-. cbn [g_server g_client].
+  rewrite cgb_chain_server in E. rewrite cgb_chain_client in E0.
+  unfold generate_server, generate_client in *.
+  cbn [cg_emit_package cg_compile_well_known_types cg_use_arc_self cg_generate_default_stubs] in E, E0.
+  destruct (pb_build_server b), (pb_build_client b);
+    try (apply bind_wrap in E as (sv0 & E & ->)); try (injection E as <-);
+    try (apply bind_wrap in E0 as (c0 & E0 & ->)); try (injection E0 as <-);
+    repeat split; intros; try discriminate; try congruence.
 Qed.
 
-(* NamedService::NAME is the prefix Routes registers: "/NAME/{*rest}" matches every client path *)
-Theorem service_name_is_prefix o s m : m_ident m <> [] ->
-  match_route (sv_service_name (gen_server o s)) (c_path (gen_client_fn o s m)) = Some (m_ident m).
-Proof. intros H. apply match_route_spec. split; [exact H | reflexivity]. Qed.
-
-(* composition with C10: a generated client method, sent to a server on which the generated
-   servers of [regs] are registered, runs exactly the handler of that method *)
-Theorem generated_client_reaches_handler o regs r s m :
-  build (map (registered o) regs) = Some r -> names_ok (map (registered o) regs) ->
-  In s regs -> In m (s_methods s) -> m_ident m <> [] ->
-  serve r (c_path (gen_client_fn o s m)) =
-  Handler (sv_service_name (gen_server o s)) (m_ident m).
+Lemma manual_compile_inv b s g :
+  manual_compile b s = Some g ->
+  (forall sv, g_server g = Some sv ->
+     mb_build_server b = true /\
+     server_generate_internal (manual_service_view s) true [] false false false = Some sv) /\
+  (forall c, g_client g = Some c ->
+     mb_build_client b = true /\
+     client_generate_internal (manual_service_view s) true [] false = Some c).
 Proof.
-  intros Hb Hok Hs Hm Hne.
-  apply (route_iff _ r _ _ _ Hb Hok). split; [|split; [exact Hne | reflexivity]].
-  exists (registered o s). split; [now apply in_map|]. split; [reflexivity|].
-  cbn [registered svc_methods]. now apply in_map.
+  unfold manual_compile, manual_generate. intros H. inv_bind H. apply finalize_some in H. subst g.
+  rename E into G. inv_bind G. injection G as <-. cbn [g_server g_client].
+  unfold generate_server, generate_client in *. cbn in E, E0.
+  destruct (mb_build_server b), (mb_build_client b);
+    try (apply bind_wrap in E as (sv0 & E & ->)); try (injection E as <-);
+    try (apply bind_wrap in E0 as (c0 & E0 & ->)); try (injection E0 as <-);
+    repeat split; intros; try discriminate; try congruence.
 Qed.
 
-(* why both sides must be generated with the same emit_package: skewed flags disagree as soon as
-   there is a package *)
+Lemma prost_view_methods s : length (s_methods (prost_service_view s)) = length (ps_methods s).
+Proof. cbn. apply map_length. Qed.
+Lemma manual_view_methods s : length (s_methods (manual_service_view s)) = length (ms_methods s).
+Proof. cbn. apply map_length. Qed.
+
+(* tonic_build::configure()..compile_fds / compile_protos: for every Builder value *)
+Theorem prost_builder_agrees b s g c sv :
+  prost_compile b s = Some g -> g_client g = Some c -> g_server g = Some sv ->
+  agreement (length (ps_methods s)) c sv.
+Proof.
+  intros H Hc Hs. apply prost_compile_inv in H as (Hsv & Hcl & _).
+  destruct (Hsv _ Hs) as [_ Gs]. destruct (Hcl _ Hc) as [_ Gc].
+  rewrite <- prost_view_methods. eapply internal_generators_agree; eauto.
+Qed.
+
+(* tonic_build::manual::Builder::compile *)
+Theorem manual_builder_agrees b s g c sv :
+  manual_compile b s = Some g -> g_client g = Some c -> g_server g = Some sv ->
+  agreement (length (ms_methods s)) c sv.
+Proof.
+  intros H Hc Hs. apply manual_compile_inv in H as (Hsv & Hcl).
+  destruct (Hsv _ Hs) as [_ Gs]. destruct (Hcl _ Hc) as [_ Gc].
+  rewrite <- manual_view_methods. eapply internal_generators_agree; eauto.
+Qed.
+
+(* ---------------------------------------------------------------------------------------- *)
+(* the wire names are the .proto spelling: nothing that prost-build re-cases enters them *)
+Definition wire_name (emit_package : bool) (package ident : list N) : list N :=
+  if emit_package then match package with [] => ident | p => p ++ dot :: ident end else ident.
+
+Lemma Forall2_map_l {A B C} (P : B -> C -> Prop) (g : A -> B) l r :
+  Forall2 P (map g l) r <-> Forall2 (fun x y => P (g x) y) l r.
+Proof.
+  revert r; induction l as [|x l IH]; intros r; cbn [map]; split; intros H; inversion H; subst;
+    constructor; try assumption; now apply IH.
+Qed.
+
+Theorem prost_wire_names b s g :
+  prost_compile b s = Some g ->
+  let name := wire_name (pb_emit_package b) (ps_package s) (ps_proto_name s) in
+  (forall sv, g_server g = Some sv ->
+     sm_service_name sv = name /\ sm_named sv = name /\
+     map a_literal (sm_arms sv) = map (fun m => method_path name (pm_proto_name m)) (ps_methods s)) /\
+  (forall c, g_client g = Some c ->
+     map c_path (cm_fns c) = map (fun m => method_path name (pm_proto_name m)) (ps_methods s) /\
+     map c_grpc_method (cm_fns c) = map (fun m => (name, pm_proto_name m)) (ps_methods s)).
+Proof.
+  intros H name. apply prost_compile_inv in H as (Hsv & Hcl & _).
+  assert (Hn : forall e, format_service_name (prost_service_view s) e =
+                         wire_name e (ps_package s) (ps_proto_name s))
+    by (intros e; rewrite service_name_spec; unfold wire_name;
+        cbn [prost_service_view s_package s_ident]; destruct e; [|reflexivity];
+        destruct (ps_package s); reflexivity).
+  split.
+  - intros sv Hs. destruct (Hsv _ Hs) as [_ G].
+    apply server_internal_inv in G as (_ & _ & _ & Hsn & Hnamed & _ & Harms).
+    rewrite Hsn, Hnamed, Hn. repeat split.
+    cbn [prost_service_view s_methods] in Harms. apply (proj1 (Forall2_map_l _ prost_method_view _ _)) in Harms.
+    apply Forall2_map_eq. eapply Forall2_impl; [|exact Harms].
+    intros m a (Hl & _). rewrite Hl, format_method_path_eq, Hn. reflexivity.
+  - intros c Hc. destruct (Hcl _ Hc) as [_ G].
+    apply client_internal_inv in G as (_ & _ & Hfns).
+    cbn [prost_service_view s_methods] in Hfns. apply (proj1 (Forall2_map_l _ prost_method_view _ _)) in Hfns. split.
+    + apply Forall2_map_eq. eapply Forall2_impl; [|exact Hfns].
+      intros m f (_ & Hp & _). rewrite Hp, format_method_path_eq, Hn. reflexivity.
+    + apply Forall2_map_eq. eapply Forall2_impl; [|exact Hfns].
+      intros m f (_ & _ & Hg & _). rewrite Hg, Hn. reflexivity.
+Qed.
+
+(* tonic_build::manual: package "." name, route names; white space in type strings is dropped *)
+Theorem manual_wire_names b s g :
+  manual_compile b s = Some g ->
+  let name := wire_name true (ms_package s) (ms_name s) in
+  (forall sv, g_server g = Some sv ->
+     sm_service_name sv = name /\ sm_named sv = name /\
+     map a_literal (sm_arms sv) = map (fun m => method_path name (mm_route_name m)) (ms_methods s) /\
+     map (fun a => (a_input a, a_output a)) (sm_arms sv) =
+       map (fun m => (strip_ws (mm_input_type m), strip_ws (mm_output_type m))) (ms_methods s)) /\
+  (forall c, g_client g = Some c ->
+     map c_path (cm_fns c) = map (fun m => method_path name (mm_route_name m)) (ms_methods s) /\
+     map (fun f => (c_input f, c_output f)) (cm_fns c) =
+       map (fun m => (strip_ws (mm_input_type m), strip_ws (mm_output_type m))) (ms_methods s)).
+Proof.
+  intros H name. apply manual_compile_inv in H as (Hsv & Hcl).
+  assert (Hn : format_service_name (manual_service_view s) true = name).
+  { rewrite service_name_spec. unfold name, wire_name. cbn [manual_service_view s_package s_ident].
+    destruct (ms_package s); reflexivity. }
+  assert (Hty : forall m io, m_types (manual_method_view m) [] false = Some io ->
+                io = (strip_ws (mm_input_type m), strip_ws (mm_output_type m))).
+  { intros m io. cbn. destruct (mm_input_is_path m), (mm_output_is_path m); cbn; congruence. }
+  split.
+  - intros sv Hs. destruct (Hsv _ Hs) as [_ G].
+    apply server_internal_inv in G as (_ & _ & _ & Hsn & Hnamed & _ & Harms).
+    rewrite Hsn, Hnamed, Hn.
+    cbn [manual_service_view s_methods] in Harms.
+    apply (proj1 (Forall2_map_l _ manual_method_view _ _)) in Harms. repeat split.
+    + apply Forall2_map_eq. eapply Forall2_impl; [|exact Harms].
+      intros m a (Hl & _). rewrite Hl, format_method_path_eq, Hn. reflexivity.
+    + apply Forall2_map_eq. eapply Forall2_impl; [|exact Harms].
+      intros m a (_ & _ & _ & _ & _ & _ & _ & i & o & Ht & <- & <- & _). now apply Hty.
+  - intros c Hc. destruct (Hcl _ Hc) as [_ G].
+    apply client_internal_inv in G as (_ & _ & Hfns).
+    cbn [manual_service_view s_methods] in Hfns.
+    apply (proj1 (Forall2_map_l _ manual_method_view _ _)) in Hfns. split.
+    + apply Forall2_map_eq. eapply Forall2_impl; [|exact Hfns].
+      intros m f (_ & Hp & _). rewrite Hp, format_method_path_eq, Hn. reflexivity.
+    + apply Forall2_map_eq. eapply Forall2_impl; [|exact Hfns].
+      intros m f (_ & _ & _ & _ & _ & _ & Ht). now apply Hty.
+Qed.
+
+(* the message types of a prost method are resolved once per side, with the same arguments *)
+Theorem prost_message_types b s g :
+  prost_compile b s = Some g ->
+  let ty := fun m => (convert_type (pb_proto_path b) (pb_compile_well_known_types b)
+                                   (pm_input_proto_type m) (pm_input_type m),
+                      convert_type (pb_proto_path b) (pb_compile_well_known_types b)
+                                   (pm_output_proto_type m) (pm_output_type m)) in
+  (forall sv, g_server g = Some sv ->
+     map (fun a => (a_input a, a_output a)) (sm_arms sv) = map ty (ps_methods s)) /\
+  (forall c, g_client g = Some c ->
+     map (fun f => (c_input f, c_output f)) (cm_fns c) = map ty (ps_methods s)).
+Proof.
+  intros H ty. apply prost_compile_inv in H as (Hsv & Hcl & _). split.
+  - intros sv Hs. destruct (Hsv _ Hs) as [_ G].
+    apply server_internal_inv in G as (_ & _ & _ & _ & _ & _ & Harms).
+    cbn [prost_service_view s_methods] in Harms. apply (proj1 (Forall2_map_l _ prost_method_view _ _)) in Harms.
+    apply Forall2_map_eq. eapply Forall2_impl; [|exact Harms].
+    intros m a (_ & _ & _ & _ & _ & _ & _ & i & o & Hty & <- & <- & _).
+    cbn in Hty. injection Hty as <- <-. reflexivity.
+  - intros c Hc. destruct (Hcl _ Hc) as [_ G].
+    apply client_internal_inv in G as (_ & _ & Hfns).
+    cbn [prost_service_view s_methods] in Hfns. apply (proj1 (Forall2_map_l _ prost_method_view _ _)) in Hfns.
+    apply Forall2_map_eq. eapply Forall2_impl; [|exact Hfns].
+    intros m f (_ & _ & _ & _ & _ & _ & Hty). cbn in Hty. injection Hty as <- <-. reflexivity.
+Qed.
+
+(* ---------------------------------------------------------------------------------------- *)
+(* skewed flags: with a package and at least one method the two sides disagree *)
 Theorem emit_package_skew s m : s_package s <> [] ->
   format_method_path s m true <> format_method_path s m false.
 Proof.
@@ -124,4 +506,358 @@ Proof.
   rewrite !service_name_spec in E. destruct (s_package s) as [|c p]; [congruence|].
   apply (f_equal (@length N)) in E.
   repeat (rewrite app_length in E || cbn [length] in E). lia.
+Qed.
+
+Theorem paths_agree_iff s ec es pp cw arc stubs c sv :
+  client_generate_internal s ec pp cw = Some c ->
+  server_generate_internal s es pp cw arc stubs = Some sv ->
+  (map c_path (cm_fns c) = map a_literal (sm_arms sv) <->
+   ec = es \/ s_package s = [] \/ s_methods s = []).
+Proof.
+  intros Hc Hs.
+  apply client_internal_inv in Hc as (_ & _ & Hfns).
+  apply server_internal_inv in Hs as (_ & _ & _ & _ & _ & _ & Harms).
+  assert (Pc : map c_path (cm_fns c) = map (fun m => format_method_path s m ec) (s_methods s)).
+  { apply Forall2_map_eq. eapply Forall2_impl; [|exact Hfns]. now intros m f (_ & Hp & _). }
+  assert (Pa : map a_literal (sm_arms sv) = map (fun m => format_method_path s m es) (s_methods s)).
+  { apply Forall2_map_eq. eapply Forall2_impl; [|exact Harms]. now intros m a (Hl & _). }
+  rewrite Pc, Pa. split.
+  - intros E. destruct (Bool.bool_dec ec es) as [|Hne]; [now left|]. right.
+    destruct (s_package s) as [|p0 p] eqn:Hp; [now left|]. right.
+    destruct (s_methods s) as [|m ms]; [reflexivity|]. exfalso.
+    apply (f_equal (hd [])) in E. cbn [map hd] in E.
+    assert (Hpk : s_package s <> []) by (rewrite Hp; discriminate).
+    destruct ec, es; try congruence;
+      [exact (emit_package_skew s m Hpk E) | exact (emit_package_skew s m Hpk (eq_sym E))].
+  - intros [->|[Hp|Hm]]; [reflexivity| |now rewrite Hm].
+    apply map_ext. intros m. unfold format_method_path.
+    now rewrite (service_name_flag s ec es (or_intror Hp)).
+Qed.
+
+(* ---------------------------------------------------------------------------------------- *)
+(* the generated `call` and C10's router *)
+Lemma arms_literals s e pp cw arc stubs sv :
+  server_generate_internal s e pp cw arc stubs = Some sv ->
+  map a_literal (sm_arms sv) = map (fun m => method_path (sm_named sv) (m_ident m)) (s_methods s).
+Proof.
+  intros H. apply server_internal_inv in H as (_ & _ & _ & _ & Hn & _ & Harms). rewrite Hn.
+  apply Forall2_map_eq. eapply Forall2_impl; [|exact Harms]. now intros m a (Hl & _).
+Qed.
+
+Lemma arm_method_generated name m a :
+  a_literal a = method_path name m -> arm_method name a = m.
+Proof.
+  intros H. unfold arm_method. rewrite H, method_path_app.
+  destruct (strip_prefix (slash :: name ++ [slash]) ((slash :: name ++ [slash]) ++ m)) as [r|] eqn:E.
+  - apply strip_prefix_spec in E. now apply app_inv_head in E.
+  - assert (X : strip_prefix (slash :: name ++ [slash]) ((slash :: name ++ [slash]) ++ m) = Some m)
+      by now apply strip_prefix_spec.
+    congruence.
+Qed.
+
+(* what Routes sees of a generated server: NAME and the method identifiers, in order *)
+Theorem registered_generated s e pp cw arc stubs sv :
+  server_generate_internal s e pp cw arc stubs = Some sv ->
+  registered sv = mkSvc (format_service_name s e) (map m_ident (s_methods s)).
+Proof.
+  intros H. pose proof (arms_literals _ _ _ _ _ _ _ H) as Hl.
+  apply server_internal_inv in H as (_ & _ & _ & _ & Hn & _ & Harms).
+  unfold registered. rewrite Hn in *. f_equal.
+  clear Harms. revert Hl. generalize (sm_arms sv) as arms. generalize (s_methods s) as ms.
+  induction ms as [|m ms IH]; intros [|a arms] Hl; cbn [map] in *; try discriminate; [reflexivity|].
+  injection Hl as Ha Hl. f_equal; [now apply arm_method_generated | now apply IH].
+Qed.
+
+Lemma map_method_path_NoDup name l : NoDup l -> NoDup (map (method_path name) l).
+Proof.
+  intros H. apply FinFun.Injective_map_NoDup; [|exact H].
+  intros a b E. now apply method_path_inj in E.
+Qed.
+
+(* distinct method identifiers get distinct arms: no arm is shadowed by an earlier one *)
+Theorem paths_injective s e pp cw arc stubs sv :
+  server_generate_internal s e pp cw arc stubs = Some sv ->
+  NoDup (map m_ident (s_methods s)) -> NoDup (map a_literal (sm_arms sv)).
+Proof.
+  intros H Hnd. rewrite (arms_literals _ _ _ _ _ _ _ H).
+  rewrite <- (map_map m_ident (method_path (sm_named sv))). now apply map_method_path_NoDup.
+Qed.
+
+Lemma find_nth_NoDup {A} (key : A -> list N) (l : list A) i x :
+  NoDup (map key l) -> nth_error l i = Some x ->
+  find (fun a => bytes_eqb (key a) (key x)) l = Some x.
+Proof.
+  revert i; induction l as [|a l IH]; intros [|i] Hnd Hn; cbn [nth_error] in Hn; try discriminate.
+  - injection Hn as ->. cbn [find]. now rewrite bytes_eqb_refl.
+  - cbn [find map] in *. inversion Hnd as [|? ? Hnotin Hnd']; subst.
+    destruct (bytes_eqb (key a) (key x)) eqn:E.
+    + apply bytes_eqb_eq in E. exfalso. apply Hnotin. rewrite E.
+      apply in_map. eapply nth_error_In; eassumption.
+    + eapply IH; eassumption.
+Qed.
+
+(* the generated `call`, given the literal the i-th generated client method sends, takes the
+   i-th arm - the one that calls the trait method of the same name *)
+Theorem client_path_takes_its_arm s ec es pp cw arc stubs c sv i f a :
+  client_generate_internal s ec pp cw = Some c ->
+  server_generate_internal s es pp cw arc stubs = Some sv ->
+  ec = es \/ s_package s = [] ->
+  NoDup (map m_ident (s_methods s)) ->
+  nth_error (cm_fns c) i = Some f -> nth_error (sm_arms sv) i = Some a ->
+  call_arm sv (c_path f) = Some a.
+Proof.
+  intros Hc Hs Hflag Hnd Nf Na.
+  pose proof (paths_injective _ _ _ _ _ _ _ Hs Hnd) as Hinj.
+  pose proof (internal_generators_agree _ _ _ _ _ _ _ _ _ Hc Hs Hflag) as (Lf & Lt & La & _ & Hag).
+  destruct (nth_error (sm_trait_fns sv) i) as [t|] eqn:Nt.
+  - destruct (Hag i f t a Nf Nt Na) as (Hp & _). unfold call_arm. rewrite Hp.
+    now apply (find_nth_NoDup a_literal (sm_arms sv) i a).
+  - apply nth_error_None in Nt. assert (nth_error (sm_arms sv) i = None) by (apply nth_error_None; lia).
+    congruence.
+Qed.
+
+(* NamedService::NAME is the prefix Routes registers: "/NAME/{*rest}" matches every client path *)
+Theorem service_name_is_prefix s ec es pp cw arc stubs c sv i f m :
+  client_generate_internal s ec pp cw = Some c ->
+  server_generate_internal s es pp cw arc stubs = Some sv ->
+  ec = es \/ s_package s = [] ->
+  nth_error (cm_fns c) i = Some f -> nth_error (s_methods s) i = Some m -> m_ident m <> [] ->
+  match_route (sm_named sv) (c_path f) = Some (m_ident m).
+Proof.
+  intros Hc Hs Hflag Nf Nm Hne.
+  apply client_internal_inv in Hc as (_ & _ & Hfns).
+  apply server_internal_inv in Hs as (_ & _ & _ & _ & Hn & _ & _).
+  apply Forall2_nth in Hfns as [_ Hf]. destruct (Hf i m f Nm Nf) as (_ & Hp & _).
+  rewrite Hn, Hp, format_method_path_eq, (service_name_flag s ec es Hflag).
+  apply match_route_spec. split; [exact Hne | reflexivity].
+Qed.
+
+(* composition with C10: a generated client method, sent to Routes on which generated servers are
+   registered (the server of its own service among them), runs exactly the handler of that method *)
+Definition generated_server (e : bool) (p : svc * server_mod) : Prop :=
+  exists pp cw arc stubs, server_generate_internal (fst p) e pp cw arc stubs = Some (snd p).
+
+Theorem generated_client_reaches_handler e gens r s sv pp cw c i f m :
+  Forall (generated_server e) gens ->
+  build (map (fun p => registered (snd p)) gens) = Some r ->
+  names_ok (map (fun p => registered (snd p)) gens) ->
+  In (s, sv) gens ->
+  client_generate_internal s e pp cw = Some c ->
+  nth_error (cm_fns c) i = Some f -> nth_error (s_methods s) i = Some m -> m_ident m <> [] ->
+  serve r (c_path f) = Handler (sm_named sv) (m_ident m).
+Proof.
+  intros Hgen Hb Hok Hin Hc Nf Nm Hne.
+  rewrite Forall_forall in Hgen. destruct (Hgen _ Hin) as (pp' & cw' & arc & stubs & Hs). cbn [fst snd] in Hs.
+  pose proof (registered_generated _ _ _ _ _ _ _ Hs) as Hreg.
+  apply server_internal_inv in Hs as (_ & _ & _ & _ & Hn & _ & _).
+  apply client_internal_inv in Hc as (_ & _ & Hfns).
+  apply Forall2_nth in Hfns as [_ Hf]. destruct (Hf i m f Nm Nf) as (_ & Hp & _).
+  apply (route_iff _ r _ _ _ Hb Hok). split; [|split; [exact Hne|]].
+  - exists (registered sv). split; [apply (in_map (fun p => registered (snd p)) gens (s, sv) Hin)|].
+    rewrite Hreg, Hn. cbn [svc_name svc_methods]. split; [reflexivity|].
+    apply in_map. eapply nth_error_In; eassumption.
+  - rewrite Hp, Hn. reflexivity.
+Qed.
+
+(* ---------------------------------------------------------------------------------------- *)
+(* the generators do not panic on well-formed descriptors *)
+Definition method_wf (pp : list N) (cw : bool) (m : method) : Prop :=
+  m_codec_ok m = true /\ mk_ident (m_name m) <> None /\
+  mk_ident (m_ident m ++ str "Svc") <> None /\ mk_ident (m_ident m ++ str "Stream") <> None /\
+  m_types m pp cw <> None.
+Definition service_wf (pp : list N) (cw : bool) (s : svc) : Prop :=
+  mk_ident (s_name s) <> None /\
+  mk_ident (s_name s ++ str "Client") <> None /\ mk_ident (s_name s ++ str "Server") <> None /\
+  mk_ident (naive_snake_case (s_name s) ++ str "_client") <> None /\
+  mk_ident (naive_snake_case (s_name s) ++ str "_server") <> None /\
+  Forall (method_wf pp cw) (s_methods s).
+
+Lemma not_none {A} (o : option A) : o <> None -> exists x, o = Some x.
+Proof. destruct o; [eauto | congruence]. Qed.
+
+Lemma mapM_total {A B} (f : A -> option B) l :
+  Forall (fun x => f x <> None) l -> exists r, mapM f l = Some r.
+Proof.
+  intros H. destruct (mapM f l) as [r|] eqn:E; [eauto|]. exfalso.
+  apply mapM_none in E as (x & Hin & Hx). rewrite Forall_forall in H. exact (H x Hin Hx).
+Qed.
+
+Theorem no_panic_on_well_formed s ec es pp cw arc stubs :
+  service_wf pp cw s ->
+  (exists c, client_generate_internal s ec pp cw = Some c) /\
+  (exists sv, server_generate_internal s es pp cw arc stubs = Some sv).
+Proof.
+  intros (Ht & Hc & Hs & Hmc & Hms & Hm).
+  apply not_none in Ht as (xt & Ht), Hc as (xc & Hc), Hs as (xs & Hs), Hmc as (xmc & Hmc), Hms as (xms & Hms).
+  split.
+  - unfold client_generate_internal, client_generate_methods. rewrite Hc, Hmc. cbn [bind].
+    destruct (mapM_total (client_generate_method s ec pp cw) (s_methods s)) as [r Hr]; [|rewrite Hr; cbn; eauto].
+    eapply Forall_impl; [|exact Hm]. intros m (Hco & Hn & _ & _ & Hty).
+    apply not_none in Hn as (n & Hn), Hty as (ty & Hty).
+    unfold client_generate_method, client_generate_unary, client_generate_server_streaming,
+      client_generate_client_streaming, client_generate_streaming.
+    rewrite Hco, Hn, Hty. destruct (m_client_streaming m), (m_server_streaming m); cbn; discriminate.
+  - unfold server_generate_internal, server_generate_methods, generate_trait_methods.
+    destruct (mapM_total (server_generate_method s es pp cw arc stubs) (s_methods s)) as [ra Hra].
+    { eapply Forall_impl; [|exact Hm]. intros m (Hco & Hn & Hsvc & Hst & Hty).
+      apply not_none in Hn as (n & Hn), Hty as (ty & Hty), Hsvc as (sx & Hsvc), Hst as (st & Hst).
+      unfold server_generate_method, server_generate_unary, server_generate_server_streaming,
+        server_generate_client_streaming, server_generate_streaming.
+      rewrite Hn, Ht. cbn [bind]. rewrite Hco, Hsvc, Hty, Hst.
+      destruct (m_client_streaming m), (m_server_streaming m), stubs; cbn; discriminate. }
+    destruct (mapM_total (generate_trait_method pp cw arc stubs) (s_methods s)) as [rt Hrt].
+    { eapply Forall_impl; [|exact Hm]. intros m (_ & Hn & _ & Hst & Hty).
+      apply not_none in Hn as (n & Hn), Hty as (ty & Hty), Hst as (st & Hst).
+      unfold generate_trait_method. rewrite Hn, Hty. cbn [bind]. rewrite Hst.
+      destruct (m_client_streaming m), (m_server_streaming m), stubs; cbn; discriminate. }
+    rewrite Hra, Hs, Ht, Hms, Hrt. cbn. eauto.
+Qed.
+
+(* conversely the client generator panics only for one of the listed reasons *)
+Lemma client_method_panics_iff s e pp cw m :
+  client_generate_method s e pp cw m = None <->
+  m_codec_ok m = false \/ mk_ident (m_name m) = None \/ m_types m pp cw = None.
+Proof.
+  unfold client_generate_method, client_generate_unary, client_generate_server_streaming,
+    client_generate_client_streaming, client_generate_streaming.
+  destruct (m_client_streaming m), (m_server_streaming m), (m_codec_ok m),
+    (mk_ident (m_name m)), (m_types m pp cw); cbn; split; intros H;
+    try discriminate; try reflexivity; try tauto;
+    destruct H as [H|[H|H]]; discriminate.
+Qed.
+
+Theorem client_panics_iff s e pp cw :
+  client_generate_internal s e pp cw = None <->
+  mk_ident (s_name s ++ str "Client") = None \/
+  mk_ident (naive_snake_case (s_name s) ++ str "_client") = None \/
+  exists m, In m (s_methods s) /\
+    (m_codec_ok m = false \/ mk_ident (m_name m) = None \/ m_types m pp cw = None).
+Proof.
+  unfold client_generate_internal, client_generate_methods.
+  destruct (mk_ident (s_name s ++ str "Client")) as [x1|]; cbn [bind]; [|split; eauto].
+  destruct (mk_ident (naive_snake_case (s_name s) ++ str "_client")) as [x2|]; cbn [bind]; [|split; eauto].
+  destruct (mapM (client_generate_method s e pp cw) (s_methods s)) as [r|] eqn:E; cbn [bind].
+  - split; [discriminate|]. intros [H|[H|(m & Hin & H)]]; try discriminate. exfalso.
+    assert (X : mapM (client_generate_method s e pp cw) (s_methods s) = None).
+    { apply mapM_none. exists m. split; [exact Hin|].
+      exact (proj2 (client_method_panics_iff s e pp cw m) H). }
+    congruence.
+  - split; [|reflexivity]. intros _. right. right.
+    apply mapM_none in E as (m & Hin & Hm). exists m. split; [exact Hin|].
+    exact (proj1 (client_method_panics_iff s e pp cw m) Hm).
+Qed.
+
+(* ---------------------------------------------------------------------------------------- *)
+(* every combination of client and server streaming, in every place the shape is written *)
+Definition shape_everywhere (k : shape) (cs ss : bool) (f : client_fn) (t : trait_fn) (a : server_arm) : Prop :=
+  c_req_streaming f = cs /\ c_resp_streaming f = ss /\ c_call f = k /\
+  a_kind a = k /\ a_call_req_streaming a = cs /\ is_some (a_response_stream a) = ss /\ a_grpc_call a = k /\
+  t_req_streaming t = cs /\ resp_is_stream (t_resp t) = ss.
+
+Theorem shape_table s ec es pp cw arc stubs m f t a :
+  client_generate_method s ec pp cw m = Some f ->
+  generate_trait_method pp cw arc stubs m = Some t ->
+  server_generate_method s es pp cw arc stubs m = Some a ->
+  match m_client_streaming m, m_server_streaming m with
+  | false, false => shape_everywhere Unary false false f t a
+  | false, true => shape_everywhere ServerStreaming false true f t a
+  | true, false => shape_everywhere ClientStreaming true false f t a
+  | true, true => shape_everywhere Streaming true true f t a
+  end.
+Proof.
+  intros Hf Ht Ha.
+  apply client_method_spec in Hf as (_ & _ & _ & Hcs & Hss & Hcall & _).
+  apply trait_method_spec in Ht as (_ & _ & Htcs & _ & ti & to & _ & _ & Htr).
+  apply server_method_spec in Ha as (_ & Hk & Hgc & Hacs & _ & _ & _ & ai & ao & _ & _ & _ & Hrs).
+  unfold shape_everywhere. rewrite Hcs, Hss, Hcall, Hk, Hgc, Hacs, Htcs, Hrs. revert Htr.
+  destruct (m_client_streaming m), (m_server_streaming m), stubs; intros Htr;
+    injection Htr as Hr _; rewrite Hr; cbn; repeat split; reflexivity.
+Qed.
+
+(* [agreement] spelled out *)
+Lemma agreement_unfold n c sv :
+  agreement n c sv <->
+  (length (cm_fns c) = n /\ length (sm_trait_fns sv) = n /\ length (sm_arms sv) = n /\
+   sm_named sv = sm_service_name sv /\
+   forall i f t a,
+     nth_error (cm_fns c) i = Some f -> nth_error (sm_trait_fns sv) i = Some t ->
+     nth_error (sm_arms sv) i = Some a ->
+     c_path f = a_literal a /\
+     a_literal a = method_path (sm_named sv) (snd (c_grpc_method f)) /\
+     fst (c_grpc_method f) = sm_named sv /\
+     c_call f = shape_of (c_req_streaming f) (c_resp_streaming f) /\
+     a_kind a = c_call f /\
+     a_grpc_call a = c_call f /\
+     shape_of (a_call_req_streaming a) (is_some (a_response_stream a)) = c_call f /\
+     shape_of (t_req_streaming t) (resp_is_stream (t_resp t)) = c_call f /\
+     c_input f = a_input a /\ t_input t = a_input a /\
+     c_output f = a_output a /\ trait_resp_item t = Some (a_output a) /\
+     a_trait a = sm_trait sv /\ a_fn a = t_fn t /\ c_fn f = t_fn t /\
+     a_inner_by_value a = t_arc_self t /\ stream_fits t a).
+Proof. reflexivity. Qed.
+
+(* ---------------------------------------------------------------------------------------- *)
+(* .. and the server generator exactly for these *)
+Definition server_method_panic_reason (s : svc) (pp : list N) (cw stubs : bool) (m : method) : Prop :=
+  mk_ident (m_name m) = None \/ m_codec_ok m = false \/
+  mk_ident (m_ident m ++ str "Svc") = None \/ m_types m pp cw = None \/
+  (m_server_streaming m = true /\ stubs = false /\ mk_ident (m_ident m ++ str "Stream") = None).
+
+Lemma server_method_panics_iff s e pp cw arc stubs m :
+  mk_ident (s_name s) <> None ->
+  (server_generate_method s e pp cw arc stubs m = None <-> server_method_panic_reason s pp cw stubs m).
+Proof.
+  intros Hs. apply not_none in Hs as (x & Hs).
+  unfold server_generate_method, server_generate_unary, server_generate_server_streaming,
+    server_generate_client_streaming, server_generate_streaming, server_method_panic_reason.
+  rewrite Hs.
+  destruct (mk_ident (m_name m)); cbn [bind]; [|split; auto].
+  destruct (m_codec_ok m), (mk_ident (m_ident m ++ str "Svc")), (m_types m pp cw),
+    (m_client_streaming m), (m_server_streaming m), stubs,
+    (mk_ident (m_ident m ++ str "Stream")); cbn;
+    split; intros H; try discriminate; try reflexivity; auto 10;
+    repeat (destruct H as [H|H]; try discriminate); try (destruct H as (H1 & H2 & H3); discriminate).
+Qed.
+
+Lemma trait_method_panics_iff pp cw arc stubs m :
+  generate_trait_method pp cw arc stubs m = None <->
+  mk_ident (m_name m) = None \/ m_types m pp cw = None \/
+  (m_server_streaming m = true /\ stubs = false /\ mk_ident (m_ident m ++ str "Stream") = None).
+Proof.
+  unfold generate_trait_method.
+  destruct (mk_ident (m_name m)), (m_types m pp cw), (m_client_streaming m), (m_server_streaming m),
+    stubs, (mk_ident (m_ident m ++ str "Stream")); cbn;
+    split; intros H; try discriminate; try reflexivity; auto 10;
+    repeat (destruct H as [H|H]; try discriminate); try (destruct H as (H1 & H2 & H3); discriminate).
+Qed.
+
+Theorem server_panics_iff s e pp cw arc stubs :
+  server_generate_internal s e pp cw arc stubs = None <->
+  mk_ident (s_name s) = None \/
+  mk_ident (s_name s ++ str "Server") = None \/
+  mk_ident (naive_snake_case (s_name s) ++ str "_server") = None \/
+  exists m, In m (s_methods s) /\ server_method_panic_reason s pp cw stubs m.
+Proof.
+  unfold server_generate_internal, server_generate_methods, generate_trait_methods.
+  destruct (mk_ident (s_name s)) as [xt|] eqn:Ht.
+  2:{ split; [auto|]. intros _.
+      destruct (mapM (server_generate_method s e pp cw arc stubs) (s_methods s)); cbn [bind]; [|reflexivity].
+      destruct (mk_ident (s_name s ++ str "Server")); reflexivity. }
+  assert (Hs : mk_ident (s_name s) <> None) by congruence.
+  destruct (mapM (server_generate_method s e pp cw arc stubs) (s_methods s)) as [ra|] eqn:Ea; cbn [bind].
+  2:{ split; [|reflexivity]. intros _. right. right. right.
+      apply mapM_none in Ea as (m & Hin & Hm). exists m. split; [exact Hin|].
+      now apply (server_method_panics_iff s e pp cw arc stubs m Hs). }
+  destruct (mk_ident (s_name s ++ str "Server")) as [x1|]; cbn [bind]; [|split; auto].
+  destruct (mk_ident (naive_snake_case (s_name s) ++ str "_server")) as [x2|]; cbn [bind]; [|split; auto].
+  destruct (mapM (generate_trait_method pp cw arc stubs) (s_methods s)) as [rt|] eqn:Et; cbn [bind].
+  - split; [discriminate|]. intros [H|[H|[H|(m & Hin & H)]]]; try discriminate. exfalso.
+    assert (X : mapM (server_generate_method s e pp cw arc stubs) (s_methods s) = None).
+    { apply mapM_none. exists m. split; [exact Hin|].
+      now apply (server_method_panics_iff s e pp cw arc stubs m Hs). }
+    congruence.
+  - split; [|reflexivity]. intros _. right. right. right.
+    apply mapM_none in Et as (m & Hin & Hm). exists m. split; [exact Hin|].
+    apply trait_method_panics_iff in Hm. unfold server_method_panic_reason.
+    destruct Hm as [H|[H|H]]; auto 10.
 Qed.
